@@ -82,6 +82,7 @@ type c16Outcome struct {
 	err    error
 	hits   int
 	lens   [2]int64
+	starts [2][]int64 // offsets of the transport writes (flush units) per direction
 	pan    *vrt.PanicInfo
 	evalOK bool
 }
@@ -110,6 +111,7 @@ func c16Session(cfg *c16Config, dir int, f *tap.Fault, win time.Duration) c16Out
 	o.err, o.pan = gp.err, gp.pan
 	o.evalOK = ep.err == nil && ep.pan == nil
 	o.lens = [2]int64{link.Written(0), link.Written(1)}
+	o.starts = [2][]int64{link.WriteStarts(0), link.WriteStarts(1)}
 	// a corrupted length prefix makes Conn.ReceiveData allocate up to 4 GiB:
 	// give it back before the next session
 	var ms runtime.MemStats
@@ -167,7 +169,7 @@ func init() {
 	vrt.AuxCmds["c16"] = c16Aux
 	vrt.Register(&vrt.Prop{
 		ID: "C16", Level: "fault_enumeration",
-		Rule: "six configurations (whole-circuit with CO, COT, COT-malicious on generated 2-3-output circuits; streaming with CO) each have a clean run that fixes the two direction lengths (identical randomness in every session of a configuration); then one session per fault: thorough = EVERY byte offset of both directions with a byte replacement, plus a 2-64 byte random burst at sampled offsets and single-bit flips (all 8 bits of every byte for the CO configurations, one sampled bit at every 5th offset for the OT-extension ones); both tiers add, over the tail of the evaluator's stream, the same mask on two bytes 16 apart and constant-mask bursts of 32/64 bytes; quick = a PRNG subset plus a low-bit flip at every offset of the last 160 bytes of the garbler's stream. " +
+		Rule: "six configurations (whole-circuit with CO, COT, COT-malicious on generated 2-3-output circuits; streaming with CO) each have a clean run that fixes the two direction lengths (identical randomness in every session of a configuration); then one session per fault: thorough = EVERY byte offset of both directions with a byte replacement, plus a 2-64 byte random burst at sampled offsets and single-bit flips (all 8 bits of every byte for the CO configurations, one sampled bit at every 5th offset for the OT-extension ones); both tiers add every bit of the first eight bytes of the first two and last four transport writes (flush units) of each direction (message framing: lengths, counts, opcodes) and, over the tail of the evaluator's stream, the same mask on two bytes 16 apart and constant-mask bursts of 32/64 bytes; quick = a PRNG subset plus a low-bit flip at every offset of the last 160 bytes of the garbler's stream. " +
 			"Oracle: garbler err == nil implies its result equals the reference evaluation; outcome classes {error, stalled-and-aborted (0.3 s quiescence window), success, garbler-panic} are counted. Non-trivial = the fault landed inside the transcript; distinct = (configuration, direction, offset, kind).",
 		Assumptions: []string{"faults are random replacements in transit, not structured rewrites by an active attacker", "a stall is recognised after 0.3 s of quiescence of both endpoints; it is an allowed outcome"},
 		NumCases: func(t string) int {
@@ -307,6 +309,38 @@ func runC16(cs *vrt.Case) {
 				faults = append(faults, fault{1, off, "constburst", bytes.Repeat([]byte{m}, n)})
 			}
 		}
+	}
+	// message framing: every bit of the first four bytes (and the low bits of
+	// the next four) of the first two and the last four transport writes of each
+	// direction - where length prefixes, counts and opcodes of the flushed
+	// messages sit. A length that still looks plausible after the flip (shorter
+	// by a whole number of units) is the fault a value check cannot see.
+	{
+		var pos [][2]int64
+		for d := 0; d < 2; d++ {
+			st := clean.starts[d]
+			pick := map[int]bool{0: true, 1: true}
+			for k := max(0, len(st)-4); k < len(st); k++ {
+				pick[k] = true
+			}
+			for k := range st {
+				if !pick[k] {
+					continue
+				}
+				for b := int64(0); b < 8 && st[k]+b < cfg.len[d]; b++ {
+					pos = append(pos, [2]int64{int64(d), st[k] + b})
+				}
+			}
+		}
+		n := 0
+		for _, p := range pos {
+			for b := uint(0); b < 8; b++ {
+				if n++; n%per == part {
+					faults = append(faults, fault{int(p[0]), p[1], "framing-bit", []byte{1 << b}})
+				}
+			}
+		}
+		cs.Count("framing_bit_faults", int64(len(pos)*8/per))
 	}
 	self, _ := os.Executable()
 	for _, f := range faults {
